@@ -3,6 +3,7 @@ package scen
 import (
 	"bytes"
 	"fmt"
+	"os"
 	"strings"
 
 	"verifsim/sim"
@@ -395,6 +396,19 @@ func acScen(c *Ctx) {
 				continue
 			}
 			stored[ek] = cs
+			// what an accepted upload left under the action key is a serialised
+			// ActionResult (whatever the upload's own encoding was) equal to the
+			// upload up to the server's metadata
+			if afterEntry == nil {
+				s.Violate("C11.stored-parses", site, "accepted ActionResult left no entry under the action key")
+			} else if raw, err := os.ReadFile(afterEntry.Path); err != nil {
+				s.Violate("C11.stored-parses", site, "entry of an accepted ActionResult cannot be read: %v", err)
+			} else {
+				var onDisk pb.ActionResult
+				if err := proto.Unmarshal(raw, &onDisk); err != nil {
+					s.Violate("C11.stored-parses", site, "the entry stored under the action key is not a serialised ActionResult: %v (first bytes %q)", err, string(raw[:min(len(raw), 24)]))
+				}
+			}
 			// ---- queries
 			allPresent := true
 			var why string
